@@ -88,6 +88,27 @@ func interpMain(seed uint64, n int, outDir, gen string) error {
 		distinct = len(progs)
 		n = 0
 	}
+	if gen == "c20" {
+		maxLen, pct := 2, 25
+		if n > 50000 {
+			maxLen, pct = 3, 6
+		}
+		for _, p := range c20Programs(maxLen, rnd.Fork("c20"), pct) {
+			line, c, ok := interpLine(p.src, -1)
+			if !ok {
+				parseFail++
+				c.Tags = p.tags
+				c.Impl.Status = "parse-error"
+				line = "interp (undecodable)"
+			}
+			c.Tags = p.tags
+			sb.WriteString(line + "\n")
+			enc.Encode(c)
+			count++
+		}
+		distinct = count
+		n = 0
+	}
 	c07 := &c07Gen{r: rnd.Fork("c07")}
 	for count < n {
 		var src string
